@@ -49,6 +49,7 @@ type Call struct {
 	OmitRef   bool `json:"omitref,omitempty"`
 	OmitIns   bool `json:"omitins,omitempty"`
 	PairDir   bool `json:"pairdir,omitempty"` // toPairAlign: write to a directory instead of stdout
+	Dir       string `json:"-"`               // with PairDir: use this (existing) directory and keep it
 	Aggregate bool `json:"aggregate,omitempty"`
 	Threshold float64 `json:"threshold,omitempty"`
 	AppendSNP bool `json:"appendsnp,omitempty"`
@@ -116,10 +117,13 @@ func (c *Call) Run(out io.Writer) error {
 		return sam.ToMultiAlign(strings.NewReader(c.Sam), out, dflt(c.Wrap), dflt(c.Start), dflt(c.End), c.Pad, c.threads())
 	case "topa":
 		if c.PairDir {
-			dir := filepath.Join(engine.Scratch(), fmt.Sprintf("pair%d", stdoutSeq))
-			stdoutSeq++
-			os.MkdirAll(dir, 0755)
-			defer os.RemoveAll(dir)
+			dir := c.Dir
+			if dir == "" {
+				dir = filepath.Join(engine.Scratch(), fmt.Sprintf("pair%d", stdoutSeq))
+				stdoutSeq++
+				os.MkdirAll(dir, 0755)
+				defer os.RemoveAll(dir)
+			}
 			err := sam.ToPairAlign(strings.NewReader(c.Sam), strings.NewReader(c.Ref), dir, dflt(c.Wrap), dflt(c.Start), dflt(c.End), c.OmitRef, c.OmitIns, c.threads())
 			io.WriteString(out, renderDir(dir))
 			return err
